@@ -50,6 +50,11 @@ Theorem C06_closing_publisher_not_refused : forall cap ops st c m got r st',
 Proof. exact closing_publisher_not_refused. Qed.
 Print Assumptions C06_closing_publisher_not_refused.
 
+(* the same as a step clause (evaluated on the implementation) *)
+Theorem C06_closing_publisher_step : forall cap ops, holds_along closing_accepted_ok cap ops.
+Proof. exact closing_accepted_along. Qed.
+Print Assumptions C06_closing_publisher_step.
+
 (* Every Dequeue returns the head of the chosen queue with topic, payload and retain flag
    intact and qos = min m.qos q for some (f, q) of the session with topic_matches f topic
    (m.qos if no filter matches any more); only that queue of that session changes. *)
